@@ -61,7 +61,8 @@ impl<T: Clone + TTOverwriteable> TranspositionTable<T> {
     }
 
     pub fn new_generation(&mut self) {
-        self.generation += 1;
+        // The generation is only ever compared for equality, so it can wrap around
+        self.generation = self.generation.wrapping_add(1);
     }
 
     #[expect(
